@@ -220,6 +220,32 @@ func checkBytes(ctx *Ctx, s []byte, cfg c02Cfg, cuts []int, allCuts bool) *repor
 		}
 	}
 
+	// reader 6 (every fourth file): a DestinationLogger in front of a
+	// recorder — formatting of hostile values must not panic
+	if fnv(s)%4 == 0 {
+		rd := &world.RecDest{}
+		lim := len(s) + 1
+		rd.OnCall = func() {
+			ctx.Beat()
+			if len(rd.Calls) >= lim {
+				panic(workBound{"more calls delivered than input bytes"})
+			}
+		}
+		var lerr error
+		ctx.Beat()
+		p, _, msg := guard(func() { lerr = decode.Decode(&ivg.DestinationLogger{Destination: rd, Alt: len(s)%2 == 0}, s) })
+		if p {
+			return viol("C02", "panic", "Decode into a DestinationLogger panicked after %d forwarded calls: %s", len(rd.Calls), msg)
+		}
+		if !isDecodeError(lerr) {
+			return viol("C02", "error-type", "Decode into a DestinationLogger returned %T (%v)", lerr, lerr)
+		}
+		if v := modified("Decode into a DestinationLogger"); v != nil {
+			return v
+		}
+		// what the logger forwards is C07's business, not C02's: not compared here
+	}
+
 	// reader 5: Disassemble
 	{
 		var derr error
